@@ -264,7 +264,7 @@ def dict_method(I, recv, name, args, kwargs):
     if name == 'get':
         key = args[0]
         default = args[1] if len(args) > 1 else None
-        if is_sym(key):
+        if _has_sym(key):
             for kk in d:
                 if p.choose(eq_values(key, kk)):
                     return d[kk]
@@ -565,8 +565,93 @@ NATIVE = {
 }
 
 
+def _regex_match(I, pattern, flags, text, pos, mode):
+    """the assumed contract of `re`: match succeeds iff some prefix of text[pos:] is in L(p); then group(0) is
+    that prefix.  Which admissible prefix the backtracking matcher picks is not modelled (found is any of them)."""
+    from . import regexlang as R
+    import re as _re
+    p = I.p
+    key = (pattern, flags)
+    tr = p.engine.func_cache.get(('regex', key))
+    if tr is None:
+        tr = R.translate(pattern, flags)
+        p.engine.func_cache[('regex', key)] = tr
+    p.note_assumption('re: match() is truthy iff a prefix of the subject is in L(pattern); group(0) is such a prefix (choice among prefixes not modelled)')
+    text = I.need(text)
+    t = lift(text)
+    posv = to_int(pos)
+    rest = z3.SubString(t, posv, z3.Length(t) - posv) if not (isinstance(pos, int) and pos == 0) else t
+    if mode == 'match':
+        lang = tr.match_language()
+    elif mode == 'fullmatch':
+        lang = tr.body
+    else:
+        lang = tr.match_language() if tr.anchored_start else z3.Concat(R.FULL, tr.match_language())
+    if I.p.choose(z3.InRe(rest, lang)):
+        found = p.fresh('str', 'found')
+        p.assume(z3.InRe(found.t, tr.body))
+        if mode == 'search' and not tr.anchored_start:
+            start = p.fresh('int', 'mstart')
+            p.assume(z3.And(start.t >= posv, start.t + z3.Length(found.t) <= z3.Length(t)))
+            p.assume(z3.SubString(t, start.t, z3.Length(found.t)) == found.t)
+            st = start
+        else:
+            p.assume(posv + z3.Length(found.t) <= z3.Length(t))
+            p.assume(z3.SubString(t, posv, z3.Length(found.t)) == found.t)
+            st = pos
+            if mode == 'fullmatch':
+                p.assume(found.t == rest)
+        return Obj(MatchStub, {'found': found, 'start_': st, 'subject': text})
+    return None
+
+
+class MatchStub:
+    """stands for re.Match in symbolic runs"""
+
+
+def _m_group(I, args, kw):
+    m = args[0]
+    g = args[1] if len(args) > 1 else 0
+    if g == 0:
+        return m.fields['found']
+    gm = I.p.engine.models.get('re.Match.group')
+    if gm is not None:
+        return gm.fn(I, args, kw)
+    raise Unsupported(f'match.group({g!r})')
+
+
+def _m_end(I, args, kw):
+    m = args[0]
+    import ast as _ast
+    return I.binop(_ast.Add(), m.fields['start_'], py_len(I, m.fields['found']))
+
+
+def _m_start(I, args, kw):
+    return args[0].fields['start_']
+
+
+MATCH_MODELS = {'group': _m_group, 'end': _m_end, 'start': _m_start}
+
+
+import re as _re_mod
+PURE_NATIVE = {_re_mod.compile, _re_mod.escape}
+
+
 def call_native(I, f, args, kwargs):
     eng = I.p.engine
+    import re as _re
+    slf = getattr(f, '__self__', None)
+    if isinstance(slf, _re.Pattern) and f.__name__ in ('match', 'search', 'fullmatch') and eng.model_for(f) is None:
+        if ('pattern', slf.pattern, f.__name__) in eng.models:
+            return eng.models[('pattern', slf.pattern, f.__name__)].fn(I, args, kwargs)
+        pos = args[1] if len(args) > 1 else kwargs.get('pos', 0)
+        return _regex_match(I, slf.pattern, slf.flags, args[0], pos, f.__name__)
+    if f in (_re.match, _re.search, _re.fullmatch) and eng.model_for(f) is None:
+        pat = args[0]
+        fl = args[2] if len(args) > 2 else kwargs.get('flags', 0)
+        if is_sym(pat) or is_sym(fl):
+            raise Unsupported('re with symbolic pattern')
+        return _regex_match(I, pat, int(fl), args[1], 0, f.__name__)
     m = eng.model_for(f)
     if m is not None:
         return m.fn(I, args, kwargs)
@@ -579,6 +664,8 @@ def call_native(I, f, args, kwargs):
         return h(I, *args, **kwargs)
     if isinstance(f, type) and issubclass(f, BaseException):
         return ExcVal(f, args)
+    if f in PURE_NATIVE and not _has_sym(tuple(args)) and not _has_sym(tuple(kwargs.values())):
+        return f(*args, **kwargs)
     if isinstance(f, types.FunctionType):
         if f in eng.inline or getattr(f, '__pyvc_inline__', False):
             return I.call_pyfunc(f, args, kwargs)
@@ -604,5 +691,12 @@ def call_native(I, f, args, kwargs):
         m = eng.models.get(('new', f))
         if m is not None:
             return m.fn(I, args, kwargs)
+        init = f.__dict__.get('__init__') or getattr(f, '__init__', None)
+        if f in eng.inline and isinstance(init, types.FunctionType):
+            o = Obj(f)
+            o.plain_setattr = True
+            eng.inline.add(init)
+            I.call_pyfunc(init, [o] + list(args), kwargs)
+            return o
         raise Unsupported(f'constructor {f.__module__}.{f.__qualname__} without contract')
     raise Unsupported(f'call of {f!r}')
